@@ -74,6 +74,7 @@ struct Target {
     restype: Option<String>,                      // the outcome type of the function (default `res`)
     recfuel: Option<String>,
     places: Vec<(String, String, String, String)>, // expression text that denotes a mutable place inside a variable: (text, variable, getter term, setter term with $v)
+    placemethod: HashMap<String, String>,         // "name/arity" of a mutating method called on a place -> the place's new value ($0 current value)
     fldset: HashMap<String, String>,              // field name -> record update template ($0 record, $1 new value)
     unwrap_fn: String,                            // the function that turns an error value into a panic (default unwrap_p)
     explode: Vec<String>,                         // struct types whose literal, bound by `let`, becomes one variable per field                      // recursive function: Fixpoint on a fuel parameter; panic site when it runs out
@@ -1050,6 +1051,7 @@ impl<'a> Tr<'a> {
             .chain(self.t.condeff.iter().map(|(k, vs, _)| (k.clone(), vs.clone())))
             .chain(self.t.leteff.iter().map(|(k, vs, _)| (k.clone(), vs.clone())))
             .chain(self.t.psmap.iter().map(|(k, vs, _)| (k.clone(), vs.clone())))
+                .chain(self.t.places.iter().map(|p| (p.0.clone(), vec![p.1.clone()])))
             .collect();
         // two passes: a helper may call another helper
         for _ in 0..2 {
@@ -1100,6 +1102,7 @@ impl<'a> Tr<'a> {
                 .chain(self.t.condeff.iter().map(|(k, vs, _)| (k.clone(), vs.clone())))
                 .chain(self.t.leteff.iter().map(|(k, vs, _)| (k.clone(), vs.clone())))
                 .chain(self.t.psmap.iter().map(|(k, vs, _)| (k.clone(), vs.clone())))
+                .chain(self.t.places.iter().map(|p| (p.0.clone(), vec![p.1.clone()])))
                 .collect(),
         }
     }
@@ -1506,6 +1509,30 @@ impl<'a> Tr<'a> {
                 return Ok(out);
             }
         }
+        // <place>.m(args);  — a mutating method on a place inside a variable (an entry of a map)
+        if let Expr::MethodCall(m) = e {
+            let key = format!("{}/{}", m.method, m.args.len());
+            if let Some(tmpl) = self.t.placemethod.get(&key).cloned() {
+                let base = toks(&*m.receiver);
+                let pi = self.t.places.iter().position(|p| p.0 == base).or_else(|| {
+                    if self.lookup(&base).is_none() { self.place_alias.get(&base).cloned() } else { None }
+                });
+                if let Some(pi) = pi {
+                    let (_, var, getter, setter) = self.t.places[pi].clone();
+                    let cur = format!("({})", self.subst_vars(&getter));
+                    let mut binds = Vec::new();
+                    let mut args = vec![cur];
+                    for a in &m.args {
+                        args.push(self.expr(a, &mut binds)?.0);
+                    }
+                    let newrec = format!("({})", Self::subst(&tmpl, &args));
+                    let term = self.subst_vars(&setter).replace("$v", &newrec);
+                    let c = self.rebind(&var)?;
+                    let restc = self.seq(rest, k)?;
+                    return Ok(Self::wrap_binds(binds, format!("let {} := {} in\n{}", c, term, restc)));
+                }
+            }
+        }
         // x.m(args)?;  with m a mutating method of the table (fallible: the error propagates)
         if let Expr::Try(tr) = e {
             if let Expr::MethodCall(m) = &*tr.expr {
@@ -1835,6 +1862,13 @@ impl<'a> Tr<'a> {
                     "obind (loop_fuel ({}) (fun {} =>\n{}) {}) (fun {} =>\n{})",
                     fuel, Self::tuple_pat(&params), body, Self::tuple_of(&init), Self::tuple_pat(&outs), restc
                 ))
+            }
+            Expr::While(w) if matches!(&*w.cond, Expr::Let(_)) => {
+                // while let PAT = e { body }   is   loop { match e { PAT => { body } _ => { break; } } }
+                let l = match &*w.cond { Expr::Let(l) => l, _ => unreachable!() };
+                let (pat, scrut, body) = (&l.pat, &l.expr, &w.body);
+                let desugared: Expr = syn::parse_quote!( loop { match #scrut { #pat => #body, _ => { break; } } } );
+                self.stmt_expr(&desugared, rest, k)
             }
             Expr::While(w) => {
                 // while c { body }  on fuel: the state is what the body assigns
@@ -2592,6 +2626,10 @@ fn parse_targets(text: &str) -> (String, Vec<Target>) {
             "fldset" => {
                 let (a, b) = arrow(rest);
                 t.fldset.insert(a, b);
+            }
+            "placemethod" => {
+                let (a, b) = arrow(rest);
+                t.placemethod.insert(norm(&a), b);
             }
             "pcondeff" => {
                 let (a, b) = arrow(rest);
